@@ -24,18 +24,23 @@ pub enum Ty {
     I32,
     U8,
     U64,
+    /// `[u8; 4]`: the element size of f32/i32 with alignment 1
+    B4,
 }
 
 impl Ty {
     fn size(self) -> usize {
         match self {
-            Ty::F32 | Ty::I32 => 4,
+            Ty::F32 | Ty::I32 | Ty::B4 => 4,
             Ty::U8 => 1,
             Ty::U64 => 8,
         }
     }
     fn align(self) -> usize {
-        self.size()
+        match self {
+            Ty::B4 => 1,
+            _ => self.size(),
+        }
     }
 }
 
@@ -59,10 +64,12 @@ pub fn alphabet(thorough: bool) -> Vec<Op> {
         Op::Alloc(Ty::I32, 40),  // same size/align as f32, bigger
         Op::AddFresh(Ty::F32, 48),
         Op::AllocReturn(Ty::F32, 33),
-        Op::Alloc(Ty::U64, 16), // same bytes as a pooled f32 buffer, different alignment
+        Op::AddFresh(Ty::B4, 48), // same element size as f32, alignment 1: must never be handed out as f32
     ];
     if thorough {
         v.extend([
+            Op::Alloc(Ty::U64, 16), // same bytes as a pooled f32 buffer, different alignment
+            Op::Alloc(Ty::B4, 40),
             Op::Alloc(Ty::F32, 31), // below the threshold: bypasses the pool
             Op::Alloc(Ty::U8, 160), // different element size
             Op::AddFresh(Ty::F32, 8), // below threshold: dropped, not pooled
@@ -77,7 +84,7 @@ pub fn seeds(thorough: bool) -> Vec<Vec<(Ty, usize)>> {
     if thorough {
         vec![vec![], vec![(Ty::F32, 32)], vec![(Ty::F32, 64), (Ty::F32, 40)], vec![(Ty::U64, 16), (Ty::F32, 40)]]
     } else {
-        vec![vec![], vec![(Ty::F32, 64), (Ty::F32, 40)]]
+        vec![vec![], vec![(Ty::F32, 64), (Ty::F32, 40)], vec![(Ty::B4, 64)]]
     }
 }
 
@@ -213,6 +220,7 @@ pub mod anyvec {
         I32(Vec<i32>),
         U8(Vec<u8>),
         U64(Vec<u64>),
+        B4(Vec<[u8; 4]>),
     }
     impl AnyVec {
         pub fn new(ty: Ty, cap: usize) -> AnyVec {
@@ -221,6 +229,7 @@ pub mod anyvec {
                 Ty::I32 => AnyVec::I32(Vec::with_capacity(cap)),
                 Ty::U8 => AnyVec::U8(Vec::with_capacity(cap)),
                 Ty::U64 => AnyVec::U64(Vec::with_capacity(cap)),
+                Ty::B4 => AnyVec::B4(Vec::with_capacity(cap)),
             }
         }
         pub fn alloc(pool: &rten::BufferPool, ty: Ty, cap: usize) -> AnyVec {
@@ -229,6 +238,7 @@ pub mod anyvec {
                 Ty::I32 => AnyVec::I32(pool.alloc(cap)),
                 Ty::U8 => AnyVec::U8(pool.alloc(cap)),
                 Ty::U64 => AnyVec::U64(pool.alloc(cap)),
+                Ty::B4 => AnyVec::B4(pool.alloc(cap)),
             }
         }
         pub fn ptr(&self) -> usize {
@@ -237,6 +247,7 @@ pub mod anyvec {
                 AnyVec::I32(v) => v.as_ptr() as usize,
                 AnyVec::U8(v) => v.as_ptr() as usize,
                 AnyVec::U64(v) => v.as_ptr() as usize,
+                AnyVec::B4(v) => v.as_ptr() as usize,
             }
         }
         pub fn cap(&self) -> usize {
@@ -245,6 +256,7 @@ pub mod anyvec {
                 AnyVec::I32(v) => v.capacity(),
                 AnyVec::U8(v) => v.capacity(),
                 AnyVec::U64(v) => v.capacity(),
+                AnyVec::B4(v) => v.capacity(),
             }
         }
         pub fn add_to(self, pool: &rten::BufferPool) {
@@ -253,6 +265,7 @@ pub mod anyvec {
                 AnyVec::I32(v) => pool.add(v),
                 AnyVec::U8(v) => pool.add(v),
                 AnyVec::U64(v) => pool.add(v),
+                AnyVec::B4(v) => pool.add(v),
             }
         }
     }
